@@ -99,6 +99,10 @@ type QGenOpts struct {
 	// IN-subqueries)
 	InSubTables []TableDef
 	NoConst     bool // no derived fields with constant operands (finding C01-gap-row-const)
+	// LimitTotal: LIMIT/OFFSET only below an ORDER BY over all dimensions and
+	// _time - a total order of the result rows, so the slice is determined and
+	// two systems can be compared on it
+	LimitTotal bool
 	// PctOverFields: query-time PERCENTILE whose value argument is built from
 	// table fields (planning de-aggregates that argument)
 	PctOverFields bool
@@ -238,6 +242,10 @@ func genQuery(r *Rng, t *TableDef, u *Universe, o QGenOpts) *QSpec {
 			sub += " GROUP BY " + dim
 			if r.Bool(0.4) {
 				sub += fmt.Sprintf(" HAVING _points %s %d", PickOne(r, []string{">", ">="}), r.Range(1, 3))
+			} else if r.Bool(0.35) {
+				// "first n values": ordered by the grouped dimension itself, so
+				// the slice is determined
+				sub += fmt.Sprintf(" ORDER BY %s%s LIMIT %d", dim, PickOne(r, []string{"", " DESC"}), r.Range(1, 3))
 			}
 			parts = append(parts, fmt.Sprintf("%s IN (%s)", dim, sub))
 		}
@@ -348,6 +356,27 @@ func genQuery(r *Rng, t *TableDef, u *Universe, o QGenOpts) *QSpec {
 		q.Limit = r.Range(1, 12)
 		if r.Bool(0.4) {
 			q.Offset = r.Range(1, 8)
+		}
+	}
+	computedKey := false
+	for _, g := range q.GroupBy {
+		if strings.Contains(g, " AS ") {
+			computedKey = true // (its output name is not a dimension of the universe)
+		}
+	}
+	if o.LimitTotal && !o.Limit && !computedKey && r.Bool(0.2) {
+		keys := append([]string{"_time"}, dimNames(u)...)
+		for i := len(keys) - 1; i > 0; i-- {
+			j := r.Intn(i + 1)
+			keys[i], keys[j] = keys[j], keys[i]
+		}
+		q.Order = nil
+		for _, k := range keys {
+			q.Order = append(q.Order, OrderKey{k, r.Bool(0.4)})
+		}
+		q.Limit = r.Range(1, 6)
+		if r.Bool(0.6) {
+			q.Offset = r.Range(1, 4)
 		}
 	}
 	if o.Sub && r.Bool(0.15) {
